@@ -22,7 +22,15 @@ func (m *MatrixStepPlanner) Process(ctx *shared.PlannerContext,
 	out := make(chan []shared.LogEntry)
 	go func() {
 		defer close(out)
-		defer func() { shared.TamePanic(out) }()
+		// however this stage ends (end of input, error, recovered panic) the upstream must not stay
+		// blocked on its send
+		defer func() {
+			go func() {
+				for range _in {
+				}
+			}()
+		}()
+		defer shared.TamePanic(out)
 		var (
 			fp       uint64
 			nextTsNs int64
